@@ -32,7 +32,7 @@ Example c14_names : resolve [] "in_if" = DScalar 18 /\ resolve [] "InIf" = DScal
                     resolve [] "src_addr" = DBytes 6 /\ resolve [] "nosuchfield" = DNone.
 Proof. vm_compute. repeat split. Qed.
 
-From GF Require Import Model.NF Spec.BitSpec Proofs.PacketP.
+From GF Require Import Model.NF Spec.BitSpec Spec.BitNum Proofs.PacketP Proofs.BitsP.
 
 (* traffic that no NetFlow/IPFIX mapping matches is unaffected by the mappings *)
 Theorem c14_unmatched_unaffected : forall cfg ver base up r m,
@@ -42,10 +42,39 @@ Theorem c14_unmatched_unaffected : forall cfg ver base up r m,
 Proof. exact nf_fields_unmatched. Qed.
 Print Assumptions c14_unmatched_unaffected.
 
-(* bit extraction = the bit-level specification (bit 0 = MSB of byte 0, zero beyond the end, last
-   partial byte right-aligned with shift / masked without), for ALL buffers of at most 2 bytes
-   over the byte basis {0,1,2,4,...,128,255,0xaa,0x55}, ALL offsets 0..17 and ALL lengths 0..17:
-   a finite domain, enumerated completely inside Coq *)
+(* BIT EXTRACTION IS EXACT, for EVERY buffer of bytes, EVERY bit offset and EVERY bit length: GetBytes returns
+   the bytes of Spec/BitNum.v -- bit k of the buffer is bit (7 - k mod 8) of byte k/8 (bit 0 = most significant
+   bit of byte 0), bits beyond the end read as zero, the requested bits are packed most significant first into
+   ceil(len/8) bytes, and a last group of fewer than 8 bits is right-aligned (shift, what the layer mappings
+   use) or left-aligned (no shift).  Never a panic, never an error. *)
+Theorem c14_getbytes_exact : forall d off len shift, wfb d ->
+  get_bytes d (Z.of_nat off) (Z.of_nat len) shift = Ok (get_bits_num d off len shift).
+Proof. exact get_bytes_exact. Qed.
+Print Assumptions c14_getbytes_exact.
+
+(* the shape of the result and the meaning of one output byte, spelled out *)
+Theorem c14_bits_meaning : forall d off len shift i,
+  (off <= 8 * length d)%nat -> (i < (len + 7) / 8)%nat ->
+  nth i (get_bits_num d off len shift) 0 =
+  (let n := Nat.min 8 (len - 8 * i) in
+   let v := pack d (off + 8 * i) n in if shift then v else v * 2 ^ N.of_nat (8 - n)).
+Proof.
+  intros d off len shift i Ho Hi. unfold get_bits_num.
+  replace (Nat.ltb (8 * length d) off) with false by (symmetry; apply Nat.ltb_ge; exact Ho).
+  destruct (Nat.eqb_spec len 0) as [->|Hl]; [cbn in Hi; inversion Hi|].
+  rewrite (nth_indep _ 0 (out_byte d off len shift 0)) by (rewrite map_length, seq_length; exact Hi).
+  rewrite map_nth, seq_nth by exact Hi. reflexivity.
+Qed.
+Example c14_bits_example :
+  (* bits 4..15 of [0xAB; 0xCD; 0xEF]: 0xBCD -> right-aligned last nibble *)
+  get_bits_num [171; 205; 239] 4 12 true = [188; 13] /\ get_bits_num [171; 205; 239] 4 12 false = [188; 208] /\
+  get_bytes [171; 205; 239] 4 12 true = Ok [188; 13] /\
+  (* beyond the end: zeros *)
+  get_bits_num [255] 4 12 true = [240; 0].
+Proof. vm_compute. repeat split. Qed.
+
+(* the older list-of-bits formulation (Spec/BitSpec.v) agrees on a finite domain enumerated inside Coq: ALL
+   buffers of at most 2 bytes over the byte basis {0,1,2,4,...,128,255,0xaa,0x55}, ALL offsets and lengths 0..17 *)
 Theorem c14_getbytes_small :
   forallb (fun d => forallb (fun off => forallb (fun len => gb_agree d off len true && gb_agree d off len false)
                                         (seq 0 18)) (seq 0 18)) small_bufs = true.
